@@ -78,7 +78,7 @@ theorem rangeCheck_repaired (cfg : Cfg) (h15 : cfg.fixUlongMax = true) (e w lo h
   by_cases h1 : hi < lo
   · simp [h1]
   · have h1' : ¬ lo > hi := h1
-    simp only [h1', h1, ↓reduceIte]
+    simp only [h1', ↓reduceIte]
     by_cases h2 : hi = ULONG_MAX
     · simp [ulongMaxRejected, h15, h2]
     · have hbig : rangeTooBig lo hi = decide (MAX_RANGE ≤ hi - lo) := by
@@ -103,7 +103,7 @@ theorem parseSingleRange_repaired (cfg : Cfg) (h15 : cfg.fixUlongMax = true)
       else .ok ⟨itemLo s, itemHi s, itemWidth s⟩ e := by
   by_cases hn : numericItem s = false
   · rw [nonnumeric_fails cfg h16 e s hn]; simp [hn]
-  · simp only [hn, ↓reduceIte]
+  · simp only [hn]
     have hn' : numericItem s = true := by simpa using hn
     unfold numericItem at hn'
     unfold itemLo itemHi itemWidth
@@ -321,7 +321,7 @@ theorem readItem_eq (s : Str) :
         rw [Bool.and_assoc]
         have : (!a.isEmpty && a.all isDigit) = false := by simpa using h1
         rw [this]; rfl
-      simp [h1, this]
+      simp [h1]
 
 theorem itemProblems_eq (s : Str) :
     Spec.itemProblems s =
